@@ -33,126 +33,3 @@ def witnesses_for(prop):
         ws = w if isinstance(w, list) and w and isinstance(w[0], dict) and "__multi__" in w[0] else [w]
         for spec in ws:
             yield f["id"], status, spec
-
-
-# =============================================================================================
-# F1 / F14 / F16 defect model: a frozen transcription of the pinned resolution algorithm on the
-# *static* fragment (plain classes): per-position topological layer index as specificity,
-# `>=` on layer indices, ranks formed against the head candidate only.  It exists to *predict the
-# wrong answer*: a disagreement with the reference model is attributed to F1 only if the observed
-# outcome equals this prediction **and** the reference model says "ambiguous" (the statement's rule
-# leaves the applicable methods unordered while layer indices order them).
-# =============================================================================================
-def _layers(cls, avail_names, env):
-    """levels as TypeMap.__missing__ computes them: {name: level}, most general = 0."""
-    avail = [n for n in avail_names if issubclass(cls, env.cls(n))]
-    # graphlib batches: a node is ready when all more specific nodes are done
-    deps = {n: set() for n in avail}
-    for i, a in enumerate(avail):
-        for b in avail[i + 1:]:
-            ca, cb = env.cls(a), env.cls(b)
-            if ca is cb:
-                continue
-            if issubclass(ca, cb):
-                deps[b].add(a)
-            elif issubclass(cb, ca):
-                deps[a].add(b)
-    batches, done = [], set()
-    while len(done) < len(avail):
-        ready = [n for n in avail if n not in done and deps[n] <= done]
-        batches.append(ready)
-        done |= set(ready)
-    nb = len(batches)
-    return {n: nb - 1 - k for k, batch in enumerate(batches) for n in batch}
-
-
-def frozen_static_ranks(methods, call, env, index=None, tiebreaks=None):
-    """Ranks (list of lists of mids) the pinned algorithm forms for this call, candidate tie order
-    pinned by mid.  Static annotations (class names) only; returns None outside that fragment."""
-    index = index or {m["mid"]: i for i, m in enumerate(methods)}
-    from . import tx as T
-    if tiebreaks is None:
-        # re-registering an identical signature pushes the older one down (tiebreak -1, -2, ...)
-        from .refmodel import sig_identical
-        tiebreaks = {}
-        for i, m in enumerate(methods):
-            later = [o for o in methods[i + 1:] if o.get("prio", 0) == m.get("prio", 0) and sig_identical(m, o)]
-            tiebreaks[m["mid"]] = -len(later)
-    pos_vals = [T.value(v, env) for v in call.get("pos", [])]
-    kw_vals = {k: T.value(v, env) for k, v in (call.get("kw") or {}).items()}
-    npos, names = len(pos_vals), set(kw_vals)
-    keys = list(range(npos)) + sorted(kw_vals)
-
-    def tx_at(m, key):
-        if isinstance(key, int):
-            return m["pos"][key].get("t") or "object" if key < len(m["pos"]) else None
-        for k in m.get("kw", []):
-            if k["n"] == key:
-                return k.get("t") or "object"
-        return None
-
-    for m in methods:
-        for p in m.get("pos", []) + m.get("kw", []):
-            if p.get("t") is not None and not isinstance(p["t"], str):
-                return None
-    cands = None
-    spec = {}
-    for key in keys:
-        v = pos_vals[key] if isinstance(key, int) else kw_vals[key]
-        registered = sorted({tx_at(m, key) for m in methods if tx_at(m, key) is not None})
-        lv = _layers(type(v), registered, env)
-        here = {}
-        for m in methods:
-            t = tx_at(m, key)
-            if t is None or t not in lv:
-                continue
-            req = sum(1 for p in m["pos"] if not p.get("opt"))
-            if not (req <= npos <= len(m["pos"])):
-                continue
-            if {k["n"] for k in m.get("kw", []) if k.get("req")} - names:
-                continue
-            here[m["mid"]] = lv[t]
-        cands = set(here) if cands is None else cands & set(here)
-        for c in cands:
-            spec.setdefault(c, []).append(here[c])
-    if cands is None:
-        return None
-    by_mid = {m["mid"]: m for m in methods}
-    cl = [{"mid": c, "prio": by_mid[c].get("prio", 0), "spec": tuple(spec[c]), "tb": tiebreaks.get(c, 0)}
-          for c in sorted(cands)]
-    cl.sort(key=lambda c: (c["prio"], sum(c["spec"]), c["tb"]), reverse=True)
-
-    def dominates(a, b):
-        if a["prio"] > b["prio"]:
-            return True
-        if a["spec"] != b["spec"]:
-            return all(x >= y for x, y in zip(a["spec"], b["spec"]))
-        return a["tb"] > b["tb"]
-
-    ranks, processed = [], set()
-
-    def pull(cs):
-        cs = [c for c in cs if c["mid"] not in processed]
-        if not cs:
-            return
-        rv = [cs[0]]
-        for c2 in cs[1:]:
-            if not dominates(cs[0], c2):
-                processed.add(c2["mid"])
-                rv.append(c2)
-        ranks.append([c["mid"] for c in rv])
-        pull(cs[1:])
-
-    pull(cl)
-    return ranks
-
-
-def frozen_static_outcome(methods, call, env, tiebreaks=None):
-    r = frozen_static_ranks(methods, call, env, tiebreaks=tiebreaks)
-    if r is None:
-        return None
-    if not r:
-        return ("none",)
-    if len(r[0]) == 1:
-        return ("win", r[0][0])
-    return ("amb", sorted(r[0]))
